@@ -118,6 +118,11 @@ func (t *mixedTable) next(k Value) (next Value, v Value, ok bool) {
 		isInt = true
 	} else {
 		i, isInt = ToIntNoString(k)
+		if isInt && i == 0 {
+			// The key 0 lives in the hash table, it must not be mistaken for
+			// the position before the first item of the array (see above).
+			return t.hashTable.next(IntValue(0))
+		}
 	}
 	if isInt {
 		j, v, ok := t.array.next(i)
